@@ -32,6 +32,7 @@ from pdfminer.pdfexceptions import (
     PDFKeyError,
     PDFObjectNotFound,
     PDFTypeError,
+    PDFValueError,
 )
 from pdfminer.pdfparser import PDFParser, PDFStreamParser, PDFSyntaxError
 from pdfminer.pdftypes import (
@@ -619,7 +620,11 @@ class PDFStandardSecurityHandlerV5(PDFStandardSecurityHandlerV4):
             return None
 
     def authenticate(self, password: str) -> Optional[bytes]:
-        password_b = self._normalize_password(password)
+        try:
+            password_b = self._normalize_password(password)
+        except PDFValueError:
+            # SASLprep prohibits this string, so it cannot be the password
+            return None
         hash = self._password_hash(password_b, self.o_validation_salt, self.u)
         if hash == self.o_hash:
             hash = self._password_hash(password_b, self.o_key_salt, self.u)
